@@ -234,6 +234,40 @@ func applyContent(img image.Image, content int, rng *core.RNG) {
 			}
 		}
 	}
+	if content == 6 {
+		// every pixel opaque except the very last one (bottom-right), which is half transparent: a
+		// whole-image scan that stops early, or runs over the wrong bytes, takes the image for opaque
+		b := img.Bounds()
+		if d, ok := img.(draw.Image); ok && !b.Empty() {
+			for y := b.Min.Y; y < b.Max.Y; y++ {
+				for x := b.Min.X; x < b.Max.X; x++ {
+					r16, g16, b16, _ := d.At(x, y).RGBA()
+					d.Set(x, y, color.RGBA64{R: uint16(r16) | 0x0101, G: uint16(g16), B: uint16(b16), A: 0xFFFF})
+				}
+			}
+			// the pixels of the parent that lie between the rows of a sub-image count as well for a scan
+			// that ignores the stride: make every alpha in the shared buffer opaque first
+			switch m := img.(type) {
+			case *image.NRGBA:
+				for i := 3; i < len(m.Pix); i += 4 {
+					m.Pix[i] = 0xFF
+				}
+			case *image.RGBA:
+				for i := 3; i < len(m.Pix); i += 4 {
+					m.Pix[i] = 0xFF
+				}
+			case *image.NRGBA64:
+				for i := 6; i+1 < len(m.Pix); i += 8 {
+					m.Pix[i], m.Pix[i+1] = 0xFF, 0xFF
+				}
+			case *image.RGBA64:
+				for i := 6; i+1 < len(m.Pix); i += 8 {
+					m.Pix[i], m.Pix[i+1] = 0xFF, 0xFF
+				}
+			}
+			d.Set(b.Max.X-1, b.Max.Y-1, color.NRGBA64{R: 0xFFFF, G: 0x8000, B: 0x1234, A: 0x7000})
+		}
+	}
 	if content == 5 {
 		// every pixel opaque, colours as they are (a whole-image "is opaque" test passes, the image is not uniform)
 		b := img.Bounds()
